@@ -125,6 +125,11 @@ void harness(void)
     VP_ASSUME(irc_inaddr_is_ipv4(a));
 #else
     VP_ASSUME(!irc_inaddr_is_ipv4(a));
+#ifdef VP_WIDE2
+    /* stated bound of this query: groups 2 and 5 range over all 16-bit values, the others
+     * are 1, 0 or 0xabcd as fixed below (a zero run of two in front of group 5) */
+    a.in6[0] = htons(1); a.in6[1] = htons(0xabcd); a.in6[3] = 0; a.in6[4] = 0; a.in6[6] = htons(1); a.in6[7] = htons(1);
+#endif
 #ifdef VP_GROUPMAX
     /* stated bound of the quick tier: every 16-bit group is 0..VP_GROUPMAX (all 256 zero
      * patterns, narrow digit widths); the thorough tier has no such bound */
@@ -205,7 +210,10 @@ void harness(void)
     for (k = 0; k < 8; k++)
         if (a.in6[k] == 0)
             nzero_groups++;
-#ifdef PART_REF
+#ifdef VP_WIDE2
+    VP_COVER(ntohs(a.in6[2]) == 0x10, "a group equal to 0x10 (two digits, the second zero)");
+    VP_COVER(ntohs(a.in6[5]) == 0x1000 && a.in6[2] == 0, "a four-digit group and a third zero group");
+#elif defined(PART_REF)
     VP_COVER(a.in6[0] == 0 && a.in6[1] != 0 && nzero_groups == 1, "single leading zero group");
     VP_COVER(a.in6[0] != 0 && a.in6[1] == 0 && a.in6[2] != 0 && a.in6[3] == 0 && a.in6[4] == 0 && a.in6[5] != 0 && a.in6[6] != 0 && a.in6[7] != 0,
              "short zero run followed by a longer one");
